@@ -8,13 +8,19 @@
    [reachable inp s]: s is met while executing a fresh history (every
    operation well formed for the state it is executed on) from the start
    solution -- see C04_reachable_unfold.
-   Scope: JSON-schema inputs with stops units (Model/Engine.v header); stop
-   duration multipliers are not in this model.  Duration groups are: the time
-   spent at a stop is [stop_duration_at inp from to] = the stop's own duration
-   plus the duration of its group when the predecessor [from] on the route is
-   not in that group (C04_forward_walk, C04_duration_groups_example).
-   [wf_input inp] now also says that every member of a duration group is an
-   input stop (never a vehicle's first / last stop). *)
+   Scope: JSON-schema inputs with stops units (Model/Engine.v header).
+   Duration groups and per-vehicle stop duration multipliers are in the model:
+   the time vehicle v spends at a stop is [stop_duration_on inp v from to] =
+   the scaled own duration of the stop plus the scaled duration of its group
+   when the predecessor [from] on the route is not in that group; scaled d =
+   floor (d * num / den) for the vehicle's multiplier num/den, each part
+   truncated separately, and d itself when the multipliers are disabled
+   ([scale_duration]; C04_forward_walk, C04_duration_groups_example,
+   C04_multiplier_example).  [stop_duration_at inp from to] is the unscaled
+   time (multiplier 1).
+   [wf_input inp] also says that every member of a duration group is an
+   input stop (never a vehicle's first / last stop) and that every vehicle's
+   multiplier has a positive denominator and a non-negative numerator. *)
 
 From Coq Require Import List ZArith.
 From NR Require Import Model.Engine Proofs.Engine_inv Proofs.Engine_spec.
@@ -53,7 +59,7 @@ Theorem C04_forward_walk : forall inp s v,
     c_arrival c = c_end p + c_travel c /\
     c_start c = Z.max (c_arrival c)
                       (to_earliest_start (stop_windows inp (c_stop c)) (c_arrival c)) /\
-    c_end c = c_start c + stop_duration_at inp (c_stop p) (c_stop c) /\
+    c_end c = c_start c + stop_duration_on inp v (c_stop p) (c_stop c) /\
     c_cumtravel c = c_cumtravel p + c_travel c /\
     c_cumdist c = c_cumdist p + distance_value inp v (c_stop p) (c_stop c) /\
     c_pos c = S (c_pos p) /\
@@ -94,13 +100,40 @@ Theorem C04_duration_groups_example :
   in_dgroups dgx_inp = [([0; 1; 3]%nat, 300)] /\
   route_stops (get_route dgx_s1 0) = [4; 0; 1; 2; 3; 5]%nat /\
   map (fun c => c_end c - c_start c) (get_route dgx_s1 0) = [0; 10 + 300; 20; 5; 30 + 300; 0] /\
-  stop_duration_at dgx_inp 4 0 = stop_duration dgx_inp 0 + 300 /\
-  stop_duration_at dgx_inp 0 1 = stop_duration dgx_inp 1 /\
-  stop_duration_at dgx_inp 1 2 = stop_duration dgx_inp 2 /\
-  stop_duration_at dgx_inp 2 3 = stop_duration dgx_inp 3 + 300 /\
+  stop_duration_on dgx_inp 0 4 0 = stop_duration dgx_inp 0 + 300 /\
+  stop_duration_on dgx_inp 0 0 1 = stop_duration dgx_inp 1 /\
+  stop_duration_on dgx_inp 0 1 2 = stop_duration dgx_inp 2 /\
+  stop_duration_on dgx_inp 0 2 3 = stop_duration dgx_inp 3 + 300 /\
   map c_arrival (get_route dgx_s1 0) = [0; 60; 430; 510; 575; 965] /\
   map c_end (get_route dgx_s1 0) = [0; 370; 450; 515; 905; 965] /\
   map (fun c => c_end c - c_start c) (from_scratch dgx_off_inp 0 [4; 0; 1; 2; 3; 5]%nat)
   = [0; 10; 20; 5; 30; 0].
 Proof. exact C04_duration_groups_example_proof. Qed.
 Print Assumptions C04_duration_groups_example.
+
+(* stop duration multipliers, non-vacuity (mx_inp, mx_s1 in
+   Proofs/Engine_spec.v): one vehicle with multiplier 3/2; stop 0 has own
+   duration 7 and is the member of a duration group of 5 s; it is planned behind
+   the vehicle's first stop (outside the group).  The own duration and the
+   group duration are scaled and truncated separately:
+   floor (7 * 3 / 2) + floor (5 * 3 / 2) = 10 + 7 = 17, not
+   floor (12 * 3 / 2) = 18.  With the multipliers disabled (mx_off_inp): 12. *)
+Theorem C04_multiplier_example :
+  wf_input mx_inp /\ reachable mx_inp mx_s1 /\
+  (iv_mult_num (get_vehicle mx_inp 0), iv_mult_den (get_vehicle mx_inp 0)) = (3, 2) /\
+  stop_duration mx_inp 0 = 7 /\ in_dgroups mx_inp = [([0%nat], 5)] /\
+  route_stops (get_route mx_s1 0) = [2; 0; 3]%nat /\
+  map (fun c => c_end c - c_start c) (get_route mx_s1 0) = [0; 17; 0] /\
+  stop_duration_on mx_inp 0 2 0 = 10 + 7 /\
+  scale_duration mx_inp 0 7 = 10 /\ scale_duration mx_inp 0 5 = 7 /\
+  scale_duration mx_inp 0 (7 + 5) = 18 /\
+  stop_duration_at mx_inp 2 0 = 12 /\
+  map c_arrival (get_route mx_s1 0) = [0; 60; 137] /\
+  map c_end (get_route mx_s1 0) = [0; 77; 137] /\
+  wf_input mx_off_inp /\ reachable mx_off_inp mx_off_s1 /\
+  o_dis_multipliers (in_opts mx_off_inp) = true /\
+  route_stops (get_route mx_off_s1 0) = [2; 0; 3]%nat /\
+  map (fun c => c_end c - c_start c) (get_route mx_off_s1 0) = [0; 12; 0] /\
+  stop_duration_on mx_off_inp 0 2 0 = 12.
+Proof. exact C04_multiplier_example_proof. Qed.
+Print Assumptions C04_multiplier_example.
